@@ -59,12 +59,20 @@ def step_roots(db):
 
 
 class Effects:
-    def __init__(self, db):
+    """Reachability of every core step action.  The optical sub-loop (namespace
+    celeritas::optical) owns a separate optical::CoreState: its functions cannot reach the
+    core track state, so the traversal does not enter them (stated as an assumption)."""
+
+    def __init__(self, db, skip_optical=True):
         self.db = db
         self.roots = step_roots(db)
         self.reach = {}   # (cls, inst) -> (set(nodes), parent map)
+        stop = ()
+        if skip_optical:
+            db.callgraph()
+            stop = set(n for n in db.by_inst if n.startswith("celeritas::optical::"))
         for cls, order, f in self.roots:
-            nodes = db.reachable_from([f.node])
+            nodes = db.reachable_from([f.node], stop=stop)
             self.reach[(cls, f.node)] = (nodes, dict(db._last_parent), order)
 
     def actions(self):
